@@ -19,16 +19,18 @@ git apply -R "$SRC/patch.diff"
 DEMO_WITHOUT=$(cd "$WT/$DIR" && go test -vet=off -count=1 -run 'Seed|Demo|C[0-9][0-9]b?' . 2>&1 | tail -1)
 rm -f "$WT/$DIR/zz_seed_demo_test.go"
 echo "suite-fail-count=$SUITE demo-with-change: $DEMO_WITH | demo-without: $DEMO_WITHOUT"
-# run the check on /repo with the change
+# run the check against the scratch worktree with the change applied (same commit as /repo's HEAD;
+# /repo itself and /verif/evidence stay untouched: GOSYM_REPO / GOSYM_OUT)
+cd "$WT" && git apply "$SRC/patch.diff" || { echo "patch does not re-apply"; exit 2; }
+[ "$(git -C "$WT" rev-parse HEAD)" = "$(git -C /repo rev-parse HEAD)" ] || echo "WARNING: worktree is not at /repo's HEAD"
 cd /verif
-git -C /repo apply "$SRC/patch.diff" || { echo "patch does not apply to /repo"; exit 2; }
+SOUT=/tmp/seedout-$SEED; rm -rf $SOUT; mkdir -p $SOUT
 if [ -n "$ONLY" ]; then
-  bin/gosym check -prop "$PROP" -tier quick -only "$ONLY" > "$OUT/check.log" 2>&1; CODE=$?
+  GOSYM_REPO=$WT GOSYM_OUT=$SOUT bin/gosym check -prop "$PROP" -tier quick -only "$ONLY" > "$OUT/check.log" 2>&1; CODE=$?
 else
-  bin/gosym check -prop "$PROP" -tier quick > "$OUT/check.log" 2>&1; CODE=$?
+  GOSYM_REPO=$WT GOSYM_OUT=$SOUT bin/gosym check -prop "$PROP" -tier quick > "$OUT/check.log" 2>&1; CODE=$?
 fi
-git -C /repo checkout -- .
-rm -rf /verif/replays/$PROP
+rm -rf $SOUT
 echo "check exit=$CODE"; grep -E "^VIOLATION|^  harness=|^INCONCLUSIVE|^KNOWN|^OK" "$OUT/check.log" | cut -c1-260 | head -8
 python3 - "$SEED" "$PROP" "$SUITE" "$DEMO_WITH" "$DEMO_WITHOUT" "$CODE" <<'PY'
 import json,sys,os
@@ -37,7 +39,7 @@ out=f"/verif/seeded/{seed}/meta.json"
 log=open(f"/verif/seeded/{seed}/check.log").read()
 viol=[l.strip() for l in log.splitlines() if l.startswith("  harness=")][:3]
 meta={"seed":seed,"property":prop,"repo_suite_failures_with_change":int(suite),"demo_with_change":dw,"demo_without_change":dwo,
- "check_cmd":f"./check {prop} quick (after git -C /repo apply patch.diff; reverted afterwards)","check_exit":int(code),"detected":int(code)==1,
+ "check_cmd":f"bin/gosym check -prop {prop} -tier quick against a scratch worktree of /repo HEAD with patch.diff applied (GOSYM_REPO), evidence redirected (GOSYM_OUT)","check_exit":int(code),"detected":int(code)==1,
  "violations":viol,"needs":open(f"/verif/seeded/{seed}/notes.md").read()[:1500] if os.path.exists(f"/verif/seeded/{seed}/notes.md") else ""}
 json.dump(meta,open(out,"w"),indent=1)
 PY
